@@ -24,8 +24,11 @@ def build():
     def e1(fn, props, harness=HP, replace=(), unwind=None, loop=False, timeout=300, mem=8, tier="quick",
            defs=(), note="", name=None, extra=(), expect_fail=()):
         args = ["--slice-formula"]
-        if unwind:
-            args += ["--unwind", str(unwind), "--unwinding-assertions"]
+        # every E1 run has an unwinding bound with unwinding assertions: the functions under contract have no open loops
+        # (loops carry loop contracts or are bounded by the operand width), so on the unchanged tree this changes nothing;
+        # a change that introduces a loop (e.g. strncmp instead of a contract-carrying callee) then fails an unwinding
+        # assertion or a post-condition within the bound instead of running into the time box
+        args += ["--unwind", str(unwind or 12), "--unwinding-assertions"]
         args += list(extra)
         J.append(Job(name or ("E1/" + fn), "E1", harness, "h_" + fn, props, enforce=fn, replace=replace,
                      defs=["VC_HARNESS_OBJECTS"] + list(defs), loop_contracts=loop, cbmc_args=args, timeout=timeout, mem_gb=mem, tier=tier,
@@ -181,7 +184,8 @@ def build():
        note="precondition counter <= capacity: after an overflow the function hands the parser a length beyond the buffer (observation recorded in DESIGN.md 10.10)")
 
     # ---- E2: _advance_parsing, loop closed by the in-source loop contract, max_depth enumerated
-    ADV_PROPS = {"C01": "*", "C06": "*", "C07": "*", "C08": "*", "C09": "*", "C12": "*", "C16": "*", "C18": "*", "C02": "*"}
+    ADV_PROPS = {"C01": "*", "C06": "*", "C07": "*", "C08": "*", "C09": "*", "C12": "*", "C16": "*", "C18": "*", "C02": "*",
+                 "C05": "*", "C10": "*"}    # C05/C10: what the writer produces must be accepted and decoded by the parser
     NPART = 8
     for md, tmo, tier in ((1, 3600, "quick"), (2, 7200, "thorough"), (3, 14400, "thorough")):
         for i in range(NPART):
